@@ -395,6 +395,8 @@ def main(argv=None):
     seed = int(os.environ.get("VERIF_SEED", "0") or 0)
     prop = args.prop.upper()
     sys.path.insert(0, VERIF)
+    if args.replay:
+        args.replay = os.path.abspath(args.replay)  # property modules may chdir on import
     try:
         mod = importlib.import_module(f"harness.props.{prop.lower()}")
         ctx = Ctx(prop, args.tier, seed)
